@@ -417,6 +417,7 @@ func runSrv(t *testing.T, sc *SrvScenario, keep bool, res *core.Result, hooks *s
 				m.PushPlan(plan)
 				res.Config("reload:" + rec.Label)
 				okBefore := rst.get("DNS_db.reload")
+				toBefore, vkBefore := rst.get("DNS_db.ErrReloadTimeout"), rst.get("DNS_db.ErrValidationKeyNotFound")
 				rec.Inv = s.Seq()
 				if sc.ViaChan {
 					before := m.Reloads
@@ -427,7 +428,13 @@ func runSrv(t *testing.T, sc *SrvScenario, keep bool, res *core.Result, hooks *s
 					}
 					// the outcome is the server's own success counter
 					rec.OK = rst.get("DNS_db.reload") > okBefore
-					if !rec.OK {
+					switch {
+					case rec.OK:
+					case rst.get("DNS_db.ErrReloadTimeout") > toBefore:
+						rec.Err = db.ErrReloadTimeout
+					case rst.get("DNS_db.ErrValidationKeyNotFound") > vkBefore:
+						rec.Err = db.ErrValidationKeyNotFound
+					default:
 						rec.Err = errUnknownViaChan
 					}
 				} else {
